@@ -210,9 +210,54 @@ def shape(desc):
     f = facts(desc)
     return (len(nodes), ks, f['names_interleave'], f['inductors_listed_alphabetically'])
 
+def _src_str(c):
+    if 'src' not in c: return ''
+    sr = c['src']
+    return '[' + ' '.join(f'{k}={sr[k]:.6g}' if isinstance(sr[k], float) else f'{k}={sr[k]}' for k in sorted(sr)) + ']'
+
 def pretty(desc):
     return dict(ground=desc['ground'], **({'si': desc['si']} if 'si' in desc else {}),
-                comps=[f"{c['kind']}:{c['id']}({c['n1']},{c['n2']})={c['val']}" for c in desc['comps']])
+                **({'grid': desc['grid']} if 'grid' in desc else {}),
+                comps=[f"{c['kind']}:{c['id']}({c['n1']},{c['n2']})={c['val']}{_src_str(c)}" for c in desc['comps']])
+
+# --------------------------------------------------------------------------- source kinds
+
+PHASES = [0.0, math.pi / 3, math.pi / 2, 2 * math.pi / 3, math.pi, -3 * math.pi / 4, -math.pi / 2, -math.pi / 6]
+
+def is_lossy_source(c) -> bool:
+    return c['kind'] in ('V', 'I') and (c.get('src', {}).get('Ri', 0.0) != 0 or c.get('src', {}).get('Gi', 0.0) != 0)
+
+def has_lossy_source(desc) -> bool:
+    return any(is_lossy_source(c) for c in desc['comps'])
+
+def dc_value(c) -> float:
+    """what DCSolution takes as the value of a source: real part of the phasor at w = 0"""
+    sr = c.get('src')
+    if sr is None: return c['val']
+    if sr['type'] == 'ac': return c['val'] * math.cos(sr['phi']) if sr['w'] == 0 else 0.0
+    return 0.0                                    # periodic sin / tri / rect: zero mean
+
+def with_source_kinds(rng, desc, lossy=False):
+    """the same circuit with other SOURCE KINDS the state-space builder accepts: ac voltage sources (w = 0
+    or w ≠ 0) and periodic voltage sources, ac current sources with w = 0, phases in all quadrants; with
+    lossy=True also internal resistances / conductances (outside the domain of C10 / C12 — 'ideal sources' —
+    but the unforced dynamics, C11, do not depend on what a source is driven with)"""
+    comps = []
+    for c in desc['comps']:
+        c = dict(c)
+        if c['kind'] == 'V':
+            t = rng.choice(['ac0', 'ac0', 'acw', 'periodic'])
+            phi = rng.choice(PHASES)
+            if t == 'periodic':
+                c['src'] = dict(type='periodic', wavetype=rng.choice(['sin', 'tri', 'rect']), w=2.0 ** rng.randint(-2, 3), phi=phi)
+            else:
+                c['src'] = dict(type='ac', w=0.0 if t == 'ac0' else 2.0 ** rng.randint(-2, 3), phi=phi)
+            if lossy and rng.random() < 0.7: c['src']['Ri'] = 2.0 ** rng.randint(-2, 3)
+        elif c['kind'] == 'I':
+            c['src'] = dict(type='ac', w=0.0, phi=rng.choice(PHASES))
+            if lossy and rng.random() < 0.7: c['src']['Gi'] = 2.0 ** rng.randint(-3, 2)
+        comps.append(c)
+    return dict(desc, comps=comps)
 
 def labels_of(desc):
     out = []
@@ -233,6 +278,16 @@ def build_circuit(desc):
         if k == 'R': comps.append(cmp.resistor(c['id'], nodes, R=c['val']))
         elif k == 'C': comps.append(cmp.capacitor(c['id'], nodes, C=c['val']))
         elif k == 'L': comps.append(cmp.inductance(c['id'], nodes, L=c['val']))
+        elif k == 'V' and 'src' in c:
+            sr = c['src']
+            if sr['type'] == 'ac':
+                comps.append(cmp.ac_voltage_source(c['id'], nodes, V=c['val'], R=sr.get('Ri', 0.0), w=sr['w'], phi=sr['phi']))
+            else:
+                comps.append(cmp.periodic_voltage_source(c['id'], nodes, wavetype=sr['wavetype'], V=c['val'], w=sr['w'],
+                                                         phi=sr['phi'], R=sr.get('Ri', 0.0)))
+        elif k == 'I' and 'src' in c:
+            sr = c['src']
+            comps.append(cmp.ac_current_source(c['id'], nodes, I=c['val'], G=sr.get('Gi', 0.0), w=sr['w'], phi=sr['phi']))
         elif k == 'V': comps.append(cmp.dc_voltage_source(c['id'], nodes, V=c['val']))
         elif k == 'I': comps.append(cmp.dc_current_source(c['id'], nodes, I=c['val']))
         elif k == 'I0': comps.append(cmp.dc_current_source(c['id'], nodes, I=0.0))
@@ -326,8 +381,8 @@ def phasor_net(desc, w: Fraction, active=None, mode='jw'):
             if mode == 'inf': e = dict(k='T', a=_cq(0, 0), b=_cq(0, 0))
             elif mode == 'dc': e = dict(k='N', a=_cq(0, 0), b=_cq(0, 0))
             else: e = dict(k='N', a=_cq(0, w * v), b=_cq(0, 0))
-        elif k == 'V': e = dict(k='N', a=_cq(0, 0), b=_cq(one, 0))
-        elif k in ('I', 'I0', 'Iac'): e = dict(k='T', a=_cq(0, 0), b=_cq(one, 0))
+        elif k == 'V': e = dict(k='N', a=_cq(c.get('src', {}).get('Ri', 0.0), 0), b=_cq(one, 0))
+        elif k in ('I', 'I0', 'Iac'): e = dict(k='T', a=_cq(c.get('src', {}).get('Gi', 0.0) if k == 'I' else 0, 0), b=_cq(one, 0))
         else: raise ValueError(k)
         brs.append(dict(n1=c['n1'], n2=c['n2'], id=c['id'], ty=k, e=e))
     return dict(branches=brs, zero=desc['ground'])
